@@ -275,6 +275,33 @@ def run(ctx):
             r.fail('%s:strip-guards:%s' % (CRATE, k), pp.where(1),
                    'the arm on %s is disabled by strip_comments: stripping then removes text that is not a comment%s' %
                    (k, ' (blanks next to a directive: `foo`endif bar` becomes `foobar`)' if k == 'WhiteSpace' else ''))
+    # the flag decides nothing outside the Comment arm: in every other arm it may only be handed on to a nested run
+    for (ev, key), f in sorted(feats.items(), key=lambda kv: str(kv[0])):
+        a_ = f['arm']
+        if a_.kind == 'Comment':
+            continue
+        reads = []
+
+        def direct_read(e_):
+            # the flag tested itself, not merely forwarded as an argument of a call inside the condition
+            if not isinstance(e_, dict):
+                return False
+            if sx.is_path(e_, 'strip_comments'):
+                return True
+            k_ = e_.get('k')
+            if k_ in ('call', 'mcall'):
+                return direct_read(e_.get('recv')) if k_ == 'mcall' else False
+            return any(direct_read(v_) if isinstance(v_, dict) else any(direct_read(x_) for x_ in v_) if isinstance(v_, list) else False for v_ in e_.values())
+        for n in sx.walk(a_.body):
+            if n.get('k') == 'if' and direct_read(n['c'].get('e') if n['c'].get('k') == 'let' else n['c']):
+                reads.append(n)
+            elif n.get('k') == 'match' and direct_read(n['e']):
+                reads.append(n)
+        r.inst('c:strip-read:%s' % a_.key)
+        if reads:
+            r.fail('%s:strip-changes-arm:%s' % (CRATE, a_.key), pp.where(reads[0].get('l') or a_.line),
+                   'the handler of %s behaves differently under strip_comments (`%s`): the flag may only remove comments (the Comment arm) and be handed to '
+                   'nested runs; any other dependence changes non-comment text between the two modes' % (a_.key, sq(reads[0]['c'] if reads[0].get('k') == 'if' else reads[0]['e'])[:50]))
     # what happens to a comment under strip: nothing emitted in its place?
     cm = [f for (ev, key), f in feats.items() if ev == 'Enter' and f['arm'].kind == 'Comment']
     r.exactly('comment_arm', len(cm), 1)
